@@ -81,3 +81,606 @@ Proof.
   intros. unfold find_visible, current_at.
   apply (find_visible_commit_gen cis cid at_ eps cl (-1) None); assumption.
 Qed.
+
+(* ------------------------------------------------------------------------- *)
+(* 2. completeness of mapChildLocs / GroupByParent: every unfiltered reference is planned *)
+
+Definition has (m : list (Z * list loc)) (k : Z) (x : loc) : Prop :=
+  exists ls, In (k, ls) m /\ In x ls.
+
+Lemma add_loc_has_new : forall m fid l, has (add_loc m fid l) fid l.
+Proof.
+  induction m as [|[k ls] r IH]; intros fid l; cbn [add_loc].
+  - exists [l]. split; left; reflexivity.
+  - destruct (k =? fid) eqn:E.
+    + apply Z.eqb_eq in E. subst. exists (ls ++ [l]). split; [left; reflexivity|].
+      apply in_or_app. right. left. reflexivity.
+    + destruct (IH fid l) as [ls' [H1 H2]]. exists ls'. split; [right; exact H1|exact H2].
+Qed.
+
+Lemma add_loc_has_old : forall m fid l k x, has m k x -> has (add_loc m fid l) k x.
+Proof.
+  induction m as [|[k0 ls0] r IH]; intros fid l k x [ls [H1 H2]]; [destruct H1|].
+  cbn [add_loc]. destruct (k0 =? fid) eqn:E.
+  - destruct H1 as [H1|H1].
+    + inversion H1; subst. exists (ls ++ [l]). split; [left; reflexivity|apply in_or_app; left; exact H2].
+    + exists ls. split; [right; exact H1|exact H2].
+  - destruct H1 as [H1|H1].
+    + inversion H1; subst. exists ls. split; [left; reflexivity|exact H2].
+    + destruct (IH fid l k x) as [ls' [H3 H4]]; [exists ls; split; assumption|].
+      exists ls'. split; [right; exact H3|exact H4].
+Qed.
+
+Lemma map_refs_has_old : forall filter i refs j m k x,
+  has m k x -> has (map_refs filter i j refs m) k x.
+Proof.
+  intros filter i refs. induction refs as [|r rest IH]; intros j m k x H; cbn [map_refs]; [exact H|].
+  apply IH. destruct (filtered_out filter r); [exact H|apply add_loc_has_old; exact H].
+Qed.
+
+Lemma map_refs_has_new : forall filter i refs j m n r,
+  nth_error refs n = Some r -> filtered_out filter r = false ->
+  has (map_refs filter i j refs m) (r_id r) (i, (j + n)%nat).
+Proof.
+  intros filter i refs. induction refs as [|r0 rest IH]; intros j m n r Hn Hf; [destruct n; discriminate|].
+  cbn [map_refs]. destruct n as [|n].
+  - inversion Hn; subst r0. rewrite Hf. rewrite Nat.add_0_r.
+    apply map_refs_has_old. apply add_loc_has_new.
+  - cbn [nth_error] in Hn. replace (j + S n)%nat with (S j + n)%nat by lia. apply IH; assumption.
+Qed.
+
+Lemma map_parents_has_old : forall filter ps i m k x,
+  has m k x -> has (map_parents filter i ps m) k x.
+Proof.
+  intros filter ps. induction ps as [|p rest IH]; intros i m k x H; cbn [map_parents]; [exact H|].
+  apply IH. apply map_refs_has_old. exact H.
+Qed.
+
+Lemma map_parents_has_new : forall filter ps i m n par j r,
+  nth_error ps n = Some par -> nth_error (p_refs par) j = Some r -> filtered_out filter r = false ->
+  has (map_parents filter i ps m) (r_id r) ((i + n)%nat, j).
+Proof.
+  intros filter ps. induction ps as [|p rest IH]; intros i m n par j r Hn Hj Hf; [destruct n; discriminate|].
+  cbn [map_parents]. destruct n as [|n].
+  - inversion Hn; subst p. rewrite Nat.add_0_r. apply map_parents_has_old.
+    apply (map_refs_has_new filter i (p_refs par) 0%nat m j r Hj Hf).
+  - cbn [nth_error] in Hn. replace (i + S n)%nat with (S i + n)%nat by lia. eapply IH; eassumption.
+Qed.
+
+Lemma map_child_locs_complete : forall ps filter p par j r,
+  nth_error ps p = Some par -> nth_error (p_refs par) j = Some r -> filtered_out filter r = false ->
+  has (map_child_locs ps filter) (r_id r) (p, j).
+Proof.
+  intros. unfold map_child_locs.
+  apply (map_parents_has_new filter ps 0%nat [] p par j r); assumption.
+Qed.
+
+Lemma group_by_parent_cover : forall l x, In x l -> exists g, In g (group_by_parent l) /\ In x g.
+Proof.
+  induction l as [|y r IH]; intros x Hx; [destruct Hx|].
+  cbn [group_by_parent]. destruct Hx as [Hx|Hx].
+  - subst y. destruct (group_by_parent r) as [|[|z g0] gs].
+    + exists [x]. split; left; reflexivity.
+    + exists [x]. split; left; reflexivity.
+    + destruct (Nat.eqb (fst x) (fst z)).
+      * exists (x :: z :: g0). split; left; reflexivity.
+      * exists [x]. split; left; reflexivity.
+  - destruct (IH x Hx) as [g [Hg Hxg]]. destruct (group_by_parent r) as [|[|z g0] gs] eqn:E; [destruct Hg| |].
+    + exfalso. assert (In [] (group_by_parent r)) as H0 by (rewrite E; left; reflexivity).
+      destruct (group_by_parent_ok _ _ H0) as [a [b [Hab _]]]. discriminate Hab.
+    + destruct (Nat.eqb (fst y) (fst z)).
+      * destruct Hg as [Hg|Hg].
+        -- subst g. exists (y :: z :: g0). split; [left; reflexivity|right; exact Hxg].
+        -- exists g. split; [right; exact Hg|exact Hxg].
+      * exists g. split; [right; exact Hg|exact Hxg].
+Qed.
+
+(* ------------------------------------------------------------------------- *)
+(* 3. the final reference of a cell after running all writes *)
+
+Lemma set_ref_set_ref : forall c c' r, set_ref c (set_ref c' r) = set_ref c r.
+Proof. intros. reflexivity. Qed.
+
+Lemma writes_ref : forall ws ps p par j r,
+  nth_error ps p = Some par -> nth_error (p_refs par) j = Some r ->
+  exists par' r',
+    nth_error (fold_left apply_write ws ps) p = Some par' /\
+    nth_error (p_refs par') j = Some r' /\
+    ((r' = r /\ forall c, ~ In (p, j, Some c) ws) \/
+     (exists c, In (p, j, Some c) ws /\ r' = set_ref c r)).
+Proof.
+  induction ws as [|[[p' j'] c'] ws IH]; intros ps p par j r Hp Hj; cbn [fold_left].
+  - exists par, r. split; [exact Hp|]. split; [exact Hj|]. left. split; [reflexivity|intros c []].
+  - unfold apply_write at 2.
+    assert (exists par1 r1,
+              nth_error (update_nth p' (set_child j' c') ps) p = Some par1 /\
+              nth_error (p_refs par1) j = Some r1 /\
+              ((r1 = r /\ ~ (p' = p /\ j' = j /\ exists c, c' = Some c)) \/
+               (exists c, p' = p /\ j' = j /\ c' = Some c /\ r1 = set_ref c r))) as [par1 [r1 [H1 [H2 H3]]]].
+    { rewrite nth_error_update_nth. destruct (Nat.eqb p' p) eqn:Epp.
+      - apply Nat.eqb_eq in Epp. subst p'. rewrite Hp. cbn [option_map].
+        destruct c' as [c|]; cbn [set_child].
+        + destruct (Nat.eqb j' j) eqn:Ejj.
+          * exists (set_child j' (Some c) par), (set_ref c r). split; [reflexivity|].
+            cbn [set_child p_refs]. rewrite nth_error_update_nth, Ejj.
+            apply Nat.eqb_eq in Ejj. subst j'. rewrite Hj. cbn [option_map]. split; [reflexivity|].
+            right. exists c. repeat split; reflexivity.
+          * exists (set_child j' (Some c) par), r. split; [reflexivity|].
+            cbn [set_child p_refs]. rewrite nth_error_update_nth, Ejj.
+            split; [exact Hj|]. left. split; [reflexivity|].
+            apply Nat.eqb_neq in Ejj. intros [_ [E _]]. congruence.
+        + exists par, r. split; [reflexivity|]. split; [exact Hj|]. left. split; [reflexivity|].
+          intros [_ [_ [c Hc]]]. discriminate.
+      - exists par, r. split; [exact Hp|]. split; [exact Hj|]. left. split; [reflexivity|].
+        apply Nat.eqb_neq in Epp. intros [E _]. congruence. }
+    destruct (IH _ p par1 j r1 H1 H2) as [par' [r' [H4 [H5 H6]]]].
+    exists par', r'. split; [exact H4|]. split; [exact H5|].
+    destruct H6 as [[E6 Hno]|[c [Hin E6]]]; destruct H3 as [[E3 Hnot]|[c0 [Ea [Eb [Ec E3]]]]].
+    + left. subst. split; [reflexivity|]. intros c [Hc|Hc]; [|exact (Hno c Hc)].
+      inversion Hc; subst. apply Hnot. repeat split. exists c. reflexivity.
+    + right. subst. exists c0. split; [left; reflexivity|reflexivity].
+    + right. subst r1. exists c. split; [right; exact Hin|exact E6].
+    + right. subst. exists c. split; [right; exact Hin|]. apply set_ref_set_ref.
+Qed.
+
+(* every unfiltered reference of a visible parent whose child has a history is covered by a plan *)
+Lemma plan_exists : forall cis o ps hist entries pls p par j r cl,
+  valid_order o ps entries ->
+  all_plans cis o ps hist entries = Ok pls ->
+  nth_error ps p = Some par -> p_visible par = true ->
+  nth_error (p_refs par) j = Some r -> filtered_out (o_filter o) r = false ->
+  hist (r_id r) = HFound cl ->
+  exists pl, In pl pls /\ pl_pidx pl = p /\ In (p, j) (pl_locs pl) /\
+             pl_child pl = find_visible cis cl (p_changeset par) (time_threshold_parent cis par 0) (o_threshold o).
+Proof.
+  intros cis o ps hist entries pls p par j r cl Hv Hall Hp Hvis Hj Hf Hh.
+  destruct (map_child_locs_complete ps (o_filter o) p par j r Hp Hj Hf) as [locs [Hent Hloc]].
+  assert (In (r_id r, locs) entries) as Hent'
+    by (eapply Permutation_in; [apply Permutation_sym; exact Hv|exact Hent]).
+  unfold all_plans in Hall. destruct (collect_ok _ _ _ _ _ Hall) as [Hpls Hok]. subst pls.
+  destruct (Hok _ Hent') as [x Hx].
+  pose proof Hx as Hx0. unfold child_plans in Hx. cbn [fst snd] in Hx. rewrite Hh in Hx.
+  destruct (collect_ok _ _ _ _ _ Hx) as [Hxs Hgok].
+  destruct (group_by_parent_cover locs (p, j) Hloc) as [g [Hg Hpg]].
+  destruct (group_by_parent_ok _ _ Hg) as [y [rest [Ey Hyall]]].
+  destruct (Hgok g Hg) as [z Hz].
+  pose proof Hz as Hz0. unfold group_plans in Hz. subst g.
+  assert (fst y = p) as Efy by (destruct (Hyall _ Hpg) as [H1 _]; cbn [fst] in H1; lia).
+  rewrite Efy, Hp, Hvis in Hz. cbn [negb] in Hz.
+  destruct (group_plan cis o (r_id r) cl par (nth_error ps (S p)) (y :: rest)) as [[c ups]|] eqn:Eg; [|discriminate].
+  inversion Hz; subst z.
+  exists (mkPlan p (y :: rest) c ups). cbn [pl_pidx pl_locs pl_child].
+  split.
+  - apply in_flat_map. exists (r_id r, locs). split; [exact Hent'|].
+    unfold ok_or_nil. rewrite Hx0. subst x. apply in_flat_map. exists (y :: rest). split; [exact Hg|].
+    unfold ok_or_nil. rewrite Hz0. left. reflexivity.
+  - split; [reflexivity|]. split; [exact Hpg|].
+    unfold group_plan in Eg.
+    destruct (find_visible cis cl (p_changeset par) (time_threshold_parent cis par 0) (o_threshold o)) as [c0|];
+      [|destruct (o_ignore_incons o); [|discriminate]];
+      (destruct (next_version_index cis _ cl (nth_error ps (S p)) o); [|discriminate]);
+      (destruct (updates_loop cis o (r_id r) cl (y :: rest) _ _ []); [|discriminate]);
+      inversion Eg; reflexivity.
+Qed.
+
+(* annotate_child_current, general form: the annotated reference carries what FindVisible selects *)
+Lemma annotate_child_selected : forall cis o ps hist entries sortf ps' results p par j r cl,
+  valid_order o ps entries ->
+  compute_with cis o ps hist entries sortf = Ok (ps', results) ->
+  nth_error ps p = Some par -> p_visible par = true ->
+  nth_error (p_refs par) j = Some r -> filtered_out (o_filter o) r = false ->
+  hist (r_id r) = HFound cl ->
+  exists par' r',
+    nth_error ps' p = Some par' /\ nth_error (p_refs par') j = Some r' /\
+    r' = match find_visible cis cl (p_changeset par) (pstamp cis par) (o_threshold o) with
+         | Some c => set_ref c r
+         | None => r
+         end.
+Proof.
+  intros cis o ps hist entries sortf ps' results p par j r cl Hv Hc Hp Hvis Hj Hf Hh.
+  rewrite compute_with_plans in Hc.
+  destruct (all_plans cis o ps hist entries) as [pls|] eqn:E; [|discriminate].
+  cbv zeta in Hc. inversion Hc; subst ps' results. clear Hc.
+  rewrite run_plans_fst. cbn [fst].
+  destruct (writes_ref (flat_map plan_writes pls) ps p par j r Hp Hj) as [par' [r' [H1 [H2 H3]]]].
+  exists par', r'. split; [exact H1|]. split; [exact H2|].
+  destruct (plan_exists cis o ps hist entries pls p par j r cl Hv E Hp Hvis Hj Hf Hh)
+    as [pl [Hpl [Epl [Hloc Hchild]]]].
+  assert (In (p, j, pl_child pl) (flat_map plan_writes pls)) as Hw.
+  { apply in_flat_map. exists pl. split; [exact Hpl|]. unfold plan_writes.
+    apply in_map_iff. exists (p, j). cbn [snd]. rewrite Epl. split; [reflexivity|exact Hloc]. }
+  pose proof (plans_cell_consistent cis o ps hist pls
+                (all_plans_ok cis o ps hist entries pls (valid_order_ok o ps entries Hv) E)) as Hcc.
+  unfold pstamp. rewrite <- Hchild.
+  destruct H3 as [[Er Hno]|[c [Hin Er]]].
+  - destruct (pl_child pl) as [c|]; [exfalso; exact (Hno c Hw)|exact Er].
+  - rewrite (Hcc p j _ _ Hw Hin). exact Er.
+Qed.
+
+(* annotate_child_current, commit-time regime *)
+Lemma annotate_child_current : forall cis o ps hist entries sortf ps' results p par j r cl,
+  valid_order o ps entries ->
+  compute_with cis o ps hist entries sortf = Ok (ps', results) ->
+  nth_error ps p = Some par -> p_visible par = true ->
+  nth_error (p_refs par) j = Some r -> filtered_out (o_filter o) r = false ->
+  hist (r_id r) = HFound cl ->
+  forallb (commit_child cis) cl = true -> stamps_monotone cis cl = true ->
+  exists par' r',
+    nth_error ps' p = Some par' /\ nth_error (p_refs par') j = Some r' /\
+    r' = match visible_only (current_at cis cl (pstamp cis par)) with
+         | Some c => set_ref c r
+         | None => r
+         end.
+Proof.
+  intros cis o ps hist entries sortf ps' results p par j r cl Hv Hc Hp Hvis Hj Hf Hh Hcc Hm.
+  destruct (annotate_child_selected cis o ps hist entries sortf ps' results p par j r cl
+              Hv Hc Hp Hvis Hj Hf Hh) as [par' [r' [H1 [H2 H3]]]].
+  exists par', r'. split; [exact H1|]. split; [exact H2|].
+  rewrite (find_visible_commit cis (p_changeset par) (pstamp cis par) (o_threshold o) cl Hcc Hm) in H3.
+  exact H3.
+Qed.
+
+(* ------------------------------------------------------------------------- *)
+(* 4. deleted parents; where errors come from *)
+
+Definition plan_facts (o : opts) (ps0 : list parent) (pl : plan) : Prop :=
+  (exists par, nth_error ps0 (pl_pidx pl) = Some par /\ p_visible par = true) /\
+  (pl_child pl = None -> o_ignore_incons o = true).
+
+Lemma group_plans_facts : forall cis o ps0 fid cl locs pls,
+  group_plans cis o ps0 fid cl locs = Ok pls -> forall pl, In pl pls -> plan_facts o ps0 pl.
+Proof.
+  intros cis o ps0 fid cl locs pls H pl Hpl. unfold group_plans in H.
+  destruct locs as [|l0 rest]; [inversion H; subst; destruct Hpl|].
+  destruct (nth_error ps0 (fst l0)) as [par|] eqn:Ep; [|discriminate].
+  destruct (p_visible par) eqn:Ev; cbn [negb] in H; [|inversion H; subst; destruct Hpl].
+  destruct (group_plan cis o fid cl par (nth_error ps0 (S (fst l0))) (l0 :: rest)) as [[c ups]|] eqn:Eg; [|discriminate].
+  inversion H; subst. destruct Hpl as [<-|[]]. cbn [pl_pidx pl_child]. split.
+  - exists par. split; assumption.
+  - intros Hc. cbn [pl_child] in Hc. rewrite Hc in Eg. unfold group_plan in Eg.
+    destruct (find_visible cis cl (p_changeset par) (time_threshold_parent cis par 0) (o_threshold o)) as [c0|].
+    + destruct (next_version_index cis (Some c0) cl (nth_error ps0 (S (fst l0))) o); [|discriminate].
+      destruct (updates_loop cis o fid cl (l0 :: rest) _ _ []); [|discriminate]. inversion Eg.
+    + destruct (o_ignore_incons o); [reflexivity|discriminate].
+Qed.
+
+Lemma all_plans_facts : forall cis o ps0 hist entries pls,
+  all_plans cis o ps0 hist entries = Ok pls -> forall pl, In pl pls -> plan_facts o ps0 pl.
+Proof.
+  intros cis o ps0 hist entries pls H pl Hpl. unfold all_plans in H.
+  destruct (collect_ok _ _ _ _ _ H) as [Hpls Hall]. subst pls.
+  apply in_flat_map in Hpl. destruct Hpl as [[fid locs] [Hent Hpl]].
+  destruct (Hall _ Hent) as [x Hx]. unfold ok_or_nil in Hpl. rewrite Hx in Hpl.
+  unfold child_plans in Hx. cbn [fst snd] in Hx.
+  destruct (hist fid) as [cl| |]; [| |discriminate].
+  - destruct (collect_ok _ _ _ _ _ Hx) as [Hxs Hgall]. subst x.
+    apply in_flat_map in Hpl. destruct Hpl as [g [Hg Hpl]].
+    destruct (Hgall g Hg) as [y Hy]. unfold ok_or_nil in Hpl. rewrite Hy in Hpl.
+    eapply group_plans_facts; eassumption.
+  - destruct (o_ignore_missing o); [|discriminate]. inversion Hx; subst. destruct Hpl.
+Qed.
+
+Lemma writes_untouched : forall ws ps p,
+  (forall w, In w ws -> fst (fst w) <> p) ->
+  nth_error (fold_left apply_write ws ps) p = nth_error ps p.
+Proof.
+  induction ws as [|[[p' j'] c'] ws IH]; intros ps p H; cbn [fold_left]; [reflexivity|].
+  rewrite IH by (intros w Hw; apply H; right; exact Hw).
+  unfold apply_write. rewrite nth_error_update_nth.
+  assert (p' <> p) as Hne by (apply (H (p', j', c')); left; reflexivity).
+  apply Nat.eqb_neq in Hne. rewrite Hne. reflexivity.
+Qed.
+
+(* deleted parent versions receive no annotations and no updates *)
+Lemma deleted_parent_untouched : forall cis o ps hist entries sortf ps' results p par,
+  sort_spec less sortf ->
+  compute_with cis o ps hist entries sortf = Ok (ps', results) ->
+  nth_error ps p = Some par -> p_visible par = false ->
+  nth_error ps' p = Some par /\ nth_error results p = Some [].
+Proof.
+  intros cis o ps hist entries sortf ps' results p par Hs Hc Hp Hvis.
+  rewrite compute_with_plans in Hc.
+  destruct (all_plans cis o ps hist entries) as [pls|] eqn:E; [|discriminate].
+  cbv zeta in Hc. inversion Hc; subst ps' results. clear Hc.
+  assert (forall pl, In pl pls -> pl_pidx pl <> p) as Hnp.
+  { intros pl Hpl Eq. destruct (all_plans_facts _ _ _ _ _ _ E pl Hpl) as [[par' [H1 H2]] _].
+    rewrite Eq, Hp in H1. inversion H1; subst. congruence. }
+  split.
+  - rewrite run_plans_fst. cbn [fst]. rewrite writes_untouched; [exact Hp|].
+    intros w Hw. apply in_flat_map in Hw. destruct Hw as [pl [Hpl Hw]].
+    unfold plan_writes in Hw. apply in_map_iff in Hw. destruct Hw as [l [El _]]. subst w.
+    cbn [fst]. apply Hnp. exact Hpl.
+  - rewrite nth_error_map, run_plans_snd_nth. cbn [snd]. rewrite nth_error_map, Hp. cbn [option_map app].
+    assert (flat_map (ups_for p) pls = []) as ->.
+    { clear E. induction pls as [|pl r IH]; [reflexivity|]. cbn [flat_map]. unfold ups_for at 1.
+      assert (pl_pidx pl <> p) as Hne by (apply Hnp; left; reflexivity).
+      apply Nat.eqb_neq in Hne. rewrite Hne. cbn [app]. apply IH. intros x Hx. apply Hnp. right. exact Hx. }
+    f_equal. destruct (Hs []) as [Hperm _]. apply Permutation_nil in Hperm. exact Hperm.
+Qed.
+
+(* which errors a group can produce *)
+Lemma updates_loop_err : forall cis o fid cl locs n k acc e,
+  updates_loop cis o fid cl locs k n acc = Err e ->
+  e = EPanic \/ (e = EDeletedBetween fid /\ o_ignore_incons o = false).
+Proof.
+  intros cis o fid cl locs n. induction n as [|n IH]; intros k acc e H; cbn [updates_loop] in H; [discriminate|].
+  destruct (nth_error cl k) as [ck|]; [|inversion H; left; reflexivity].
+  destruct (c_visible ck); [eapply IH; exact H|].
+  destruct (o_ignore_incons o) eqn:Ei; [eapply IH; exact H|]. inversion H. right. split; reflexivity.
+Qed.
+
+Lemma next_version_index_err : forall cis cur cl np o e,
+  next_version_index cis cur cl np o = Err e -> e = EPanic.
+Proof.
+  intros cis cur cl np o e H. unfold next_version_index in H.
+  destruct np as [np|].
+  - destruct (find_visible cis cl (p_changeset np) (time_threshold_parent cis np 0) (o_threshold o)) as [nx|].
+    + destruct (time_threshold cis nx 0 <? time_threshold_parent cis np (- o_threshold o)); discriminate.
+    + destruct (match cur with Some cur0 => negb (time_threshold_parent cis np (- o_threshold o) >? time_threshold cis cur0 0) | None => false end);
+        [discriminate|]. destruct (version_before cis cl (time_threshold_parent cis np (- o_threshold o))); discriminate.
+  - destruct (last (map Some cl) None); [discriminate|]. inversion H. reflexivity.
+Qed.
+
+Lemma group_plan_err : forall cis o fid cl par np locs e,
+  group_plan cis o fid cl par np locs = Err e ->
+  e = EPanic \/ (e = EDeletedBetween fid /\ o_ignore_incons o = false) \/
+  (e = ENoVisibleChild fid (pstamp cis par) /\ o_ignore_incons o = false /\
+   find_visible cis cl (p_changeset par) (pstamp cis par) (o_threshold o) = None).
+Proof.
+  intros cis o fid cl par np locs e H. unfold group_plan in H. fold (pstamp cis par) in H.
+  destruct (find_visible cis cl (p_changeset par) (pstamp cis par) (o_threshold o)) as [c|] eqn:Ef.
+  - destruct (next_version_index cis (Some c) cl np o) as [nv|e'] eqn:En.
+    + destruct (updates_loop cis o fid cl locs (S (c_vidx c)) (nv - S (c_vidx c)) []) as [ups|e''] eqn:Eu; [discriminate|].
+      inversion H; subst. destruct (updates_loop_err _ _ _ _ _ _ _ _ _ Eu) as [Hp|Hd]; [left; exact Hp|right; left; exact Hd].
+    + inversion H; subst. left. eapply next_version_index_err. exact En.
+  - destruct (o_ignore_incons o) eqn:Ei.
+    + destruct (next_version_index cis None cl np o) as [nv|e'] eqn:En.
+      * match type of H with context [updates_loop ?a ?b ?c ?d ?e ?f ?g ?h] =>
+          destruct (updates_loop a b c d e f g h) as [ups|e''] eqn:Eu end; [discriminate|].
+        inversion H; subst. destruct (updates_loop_err _ _ _ _ _ _ _ _ _ Eu) as [Hp|[Hd1 Hd2]]; [left; exact Hp|congruence].
+      * inversion H; subst. left. eapply next_version_index_err. exact En.
+    + inversion H; subst. right. right. repeat split; reflexivity.
+Qed.
+
+(* NoHistoryError is reported only for a child that is referenced, has no history, option off *)
+Lemma no_history_error_typed : forall cis o ps hist entries sortf fid,
+  compute_with cis o ps hist entries sortf = Err (ENoHistory fid) ->
+  o_ignore_missing o = false /\ hist fid = HNotFound /\ exists locs, In (fid, locs) entries.
+Proof.
+  intros cis o ps hist entries sortf fid H. rewrite compute_with_plans in H.
+  destruct (all_plans cis o ps hist entries) as [pls|e] eqn:E; [cbv zeta in H; discriminate|].
+  inversion H; subst e. unfold all_plans in E.
+  destruct (collect_err _ _ _ _ _ E) as [[f locs] [Hent Hf]].
+  unfold child_plans in Hf. cbn [fst snd] in Hf.
+  destruct (hist f) as [cl| |] eqn:Eh.
+  - exfalso. destruct (collect_err _ _ _ _ _ Hf) as [g [Hg Hge]].
+    unfold group_plans in Hge. destruct g as [|l0 rest]; [discriminate|].
+    destruct (nth_error ps (fst l0)) as [par|]; [|discriminate].
+    destruct (negb (p_visible par)); [discriminate|].
+    destruct (group_plan cis o f cl par (nth_error ps (S (fst l0))) (l0 :: rest)) as [[c u]|e'] eqn:Eg; [discriminate|].
+    inversion Hge; subst e'.
+    destruct (group_plan_err _ _ _ _ _ _ _ _ Eg) as [Hx|[[Hx _]|[Hx _]]]; discriminate.
+  - destruct (o_ignore_missing o); [discriminate|]. inversion Hf; subst f.
+    split; [reflexivity|]. split; [exact Eh|]. exists locs. exact Hent.
+  - discriminate.
+Qed.
+
+(* NoVisibleChildError is reported only for a visible parent whose child has no visible version
+   selected by FindVisible at the parent's time, option off *)
+Lemma no_visible_child_error_typed : forall cis o ps hist entries sortf fid ts,
+  compute_with cis o ps hist entries sortf = Err (ENoVisibleChild fid ts) ->
+  o_ignore_incons o = false /\
+  exists locs cl p par,
+    In (fid, locs) entries /\ hist fid = HFound cl /\ nth_error ps p = Some par /\
+    p_visible par = true /\ ts = pstamp cis par /\
+    find_visible cis cl (p_changeset par) (pstamp cis par) (o_threshold o) = None.
+Proof.
+  intros cis o ps hist entries sortf fid ts H. rewrite compute_with_plans in H.
+  destruct (all_plans cis o ps hist entries) as [pls|e] eqn:E; [cbv zeta in H; discriminate|].
+  inversion H; subst e. unfold all_plans in E.
+  destruct (collect_err _ _ _ _ _ E) as [[f locs] [Hent Hf]].
+  unfold child_plans in Hf. cbn [fst snd] in Hf.
+  destruct (hist f) as [cl| |] eqn:Eh; [| |discriminate].
+  - destruct (collect_err _ _ _ _ _ Hf) as [g [Hg Hge]].
+    unfold group_plans in Hge. destruct g as [|l0 rest]; [discriminate|].
+    destruct (nth_error ps (fst l0)) as [par|] eqn:Ep; [|discriminate].
+    destruct (p_visible par) eqn:Ev; cbn [negb] in Hge; [|discriminate].
+    destruct (group_plan cis o f cl par (nth_error ps (S (fst l0))) (l0 :: rest)) as [[c u]|e'] eqn:Eg; [discriminate|].
+    inversion Hge; subst e'.
+    destruct (group_plan_err _ _ _ _ _ _ _ _ Eg) as [Hx|[[Hx _]|[Hx [Hi Hfv]]]]; try discriminate.
+    inversion Hx; subst f ts. split; [exact Hi|].
+    exists locs, cl, (fst l0), par. repeat split; assumption.
+  - destruct (o_ignore_missing o); discriminate.
+Qed.
+
+(* conversely: a missing history / no visible child makes every run fail unless ignored *)
+Lemma missing_history_error : forall cis o ps hist entries sortf p par j r,
+  valid_order o ps entries ->
+  nth_error ps p = Some par -> nth_error (p_refs par) j = Some r ->
+  filtered_out (o_filter o) r = false -> hist (r_id r) = HNotFound -> o_ignore_missing o = false ->
+  exists e, compute_with cis o ps hist entries sortf = Err e.
+Proof.
+  intros cis o ps hist entries sortf p par j r Hv Hp Hj Hf Hh Hi.
+  rewrite compute_with_plans.
+  destruct (all_plans cis o ps hist entries) as [pls|e] eqn:E; [|eauto]. exfalso.
+  destruct (map_child_locs_complete ps (o_filter o) p par j r Hp Hj Hf) as [locs [Hent _]].
+  assert (In (r_id r, locs) entries) as Hent'
+    by (eapply Permutation_in; [apply Permutation_sym; exact Hv|exact Hent]).
+  unfold all_plans in E. destruct (collect_ok _ _ _ _ _ E) as [_ Hok].
+  destruct (Hok _ Hent') as [x Hx]. unfold child_plans in Hx. cbn [fst] in Hx.
+  rewrite Hh, Hi in Hx. discriminate.
+Qed.
+
+Lemma no_visible_child_error : forall cis o ps hist entries sortf p par j r cl,
+  valid_order o ps entries ->
+  nth_error ps p = Some par -> p_visible par = true -> nth_error (p_refs par) j = Some r ->
+  filtered_out (o_filter o) r = false -> hist (r_id r) = HFound cl ->
+  find_visible cis cl (p_changeset par) (pstamp cis par) (o_threshold o) = None ->
+  o_ignore_incons o = false ->
+  exists e, compute_with cis o ps hist entries sortf = Err e.
+Proof.
+  intros cis o ps hist entries sortf p par j r cl Hv Hp Hvis Hj Hf Hh Hfv Hi.
+  rewrite compute_with_plans.
+  destruct (all_plans cis o ps hist entries) as [pls|e] eqn:E; [|eauto]. exfalso.
+  destruct (plan_exists cis o ps hist entries pls p par j r cl Hv E Hp Hvis Hj Hf Hh)
+    as [pl [Hpl [_ [_ Hchild]]]].
+  fold (pstamp cis par) in Hchild. rewrite Hfv in Hchild.
+  destruct (all_plans_facts _ _ _ _ _ _ E pl Hpl) as [_ Hnone].
+  rewrite (Hnone Hchild) in Hi. discriminate.
+Qed.
+
+(* ------------------------------------------------------------------------- *)
+(* 5. the updates of one (child, parent) group in closed form *)
+
+Definition version_updates (cis : Z) (locs : list loc) (ck : child) : list update :=
+  if c_visible ck then map (fun l : loc => child_update cis ck (snd l)) locs else [].
+
+Lemma skipn_nth : forall A (l : list A) k x, nth_error l k = Some x -> skipn k l = x :: skipn (S k) l.
+Proof.
+  induction l as [|y r IH]; intros k x H; [destruct k; discriminate|].
+  destruct k as [|k]; [inversion H; reflexivity|]. cbn [nth_error] in H.
+  change (skipn (S k) (y :: r)) with (skipn k r). rewrite (IH k x H). reflexivity.
+Qed.
+
+(* the loop emits, for each VISIBLE version at positions start .. start+n-1, one update per
+   location of the child in the parent, in version order, and nothing else *)
+Lemma updates_loop_exact : forall cis o fid cl locs n k acc ups,
+  updates_loop cis o fid cl locs k n acc = Ok ups ->
+  ups = acc ++ flat_map (version_updates cis locs) (firstn n (skipn k cl)).
+Proof.
+  intros cis o fid cl locs n. induction n as [|n IH]; intros k acc ups H; cbn [updates_loop] in H.
+  - inversion H. cbn [firstn flat_map]. rewrite app_nil_r. reflexivity.
+  - destruct (nth_error cl k) as [ck|] eqn:Ek; [|discriminate].
+    rewrite (skipn_nth _ _ _ _ Ek). cbn [firstn flat_map]. unfold version_updates at 1.
+    destruct (c_visible ck).
+    + rewrite (IH _ _ _ H), <- app_assoc. reflexivity.
+    + destruct (o_ignore_incons o); [|discriminate]. cbn [app]. apply (IH _ _ _ H).
+Qed.
+
+(* without IgnoreInconsistency every version in the range is visible *)
+Lemma updates_loop_all_visible : forall cis o fid cl locs n k acc ups,
+  o_ignore_incons o = false ->
+  updates_loop cis o fid cl locs k n acc = Ok ups ->
+  forall ck, In ck (firstn n (skipn k cl)) -> c_visible ck = true.
+Proof.
+  intros cis o fid cl locs n. induction n as [|n IH]; intros k acc ups Hi H ck Hck; cbn [updates_loop] in H.
+  - destruct Hck.
+  - destruct (nth_error cl k) as [c0|] eqn:Ek; [|discriminate].
+    rewrite (skipn_nth _ _ _ _ Ek) in Hck. cbn [firstn] in Hck.
+    destruct (c_visible c0) eqn:Ev.
+    + destruct Hck as [<-|Hck]; [exact Ev|]. eapply IH; eassumption.
+    + rewrite Hi in H. discriminate.
+Qed.
+
+(* ------------------------------------------------------------------------- *)
+(* 6. ApplyUpdatesUpTo: every reference is overwritten by the applicable updates of its index, in
+      list order (so the last one wins); the rest stays pending in order *)
+
+Definition applicable (t : Z) (j : nat) (u : update) : bool :=
+  negb (u_timestamp u >? t) && Nat.eqb (u_index u) j.
+
+Definition applied_ref (is_rel : bool) (t : Z) (us : list update) (j : nat) (r : ref) : ref :=
+  fold_left (fun r u => if applicable t j u then apply_update is_rel u r else r) us r.
+
+Lemma apply_updates_from_exact : forall is_rel t us refs na,
+  (forall u, In u us -> u_timestamp u >? t = false -> (u_index u < length refs)%nat) ->
+  exists refs',
+    apply_updates_from is_rel t us refs na =
+      ApplyOk refs' (na ++ filter (fun u => u_timestamp u >? t) us) /\
+    length refs' = length refs /\
+    forall j r, nth_error refs j = Some r -> nth_error refs' j = Some (applied_ref is_rel t us j r).
+Proof.
+  intros is_rel t us. induction us as [|u rest IH]; intros refs na Hin; cbn [apply_updates_from filter].
+  - exists refs. rewrite app_nil_r. split; [reflexivity|]. split; [reflexivity|]. intros j r Hj. exact Hj.
+  - destruct (u_timestamp u >? t) eqn:Et.
+    + destruct (IH refs (na ++ [u])) as [refs' [H1 [H2 H3]]];
+        [intros x Hx; apply Hin; right; exact Hx|].
+      exists refs'. rewrite H1, <- app_assoc. split; [reflexivity|]. split; [exact H2|].
+      intros j r Hj. rewrite (H3 j r Hj). unfold applied_ref. cbn [fold_left].
+      assert (applicable t j u = false) as Ha by (unfold applicable; rewrite Et; reflexivity).
+      rewrite Ha. reflexivity.
+    + assert (u_index u < length refs)%nat as Hlt by (apply Hin; [left; reflexivity|exact Et]).
+      assert (Nat.leb (length refs) (u_index u) = false) as -> by (apply Nat.leb_gt; exact Hlt).
+      destruct (IH (update_nth (u_index u) (apply_update is_rel u) refs) na) as [refs' [H1 [H2 H3]]].
+      { intros x Hx Hxt. rewrite update_nth_length. apply Hin; [right; exact Hx|exact Hxt]. }
+      exists refs'. split; [exact H1|]. split; [rewrite H2; apply update_nth_length|].
+      intros j r Hj. unfold applied_ref. cbn [fold_left].
+      assert (applicable t j u = Nat.eqb (u_index u) j) as Ha by (unfold applicable; rewrite Et; reflexivity).
+      rewrite Ha.
+      fold (applied_ref is_rel t rest j (if Nat.eqb (u_index u) j then apply_update is_rel u r else r)).
+      apply H3. rewrite nth_error_update_nth. destruct (Nat.eqb (u_index u) j); rewrite Hj; reflexivity.
+Qed.
+
+Lemma apply_exact : forall is_rel t us refs,
+  (forall u, In u us -> u_timestamp u >? t = false -> (u_index u < length refs)%nat) ->
+  exists refs',
+    apply_updates_up_to is_rel t refs us = ApplyOk refs' (filter (fun u => u_timestamp u >? t) us) /\
+    length refs' = length refs /\
+    forall j r, nth_error refs j = Some r -> nth_error refs' j = Some (applied_ref is_rel t us j r).
+Proof. intros. unfold apply_updates_up_to. apply (apply_updates_from_exact is_rel t us refs []). assumption. Qed.
+
+(* the last applicable update decides version, changeset and location *)
+Lemma applied_ref_last : forall is_rel t us u rest j r,
+  us = rest ++ [u] -> applicable t j u = true ->
+  let r' := applied_ref is_rel t us j r in
+  r_version r' = u_version u /\ r_changeset r' = u_changeset u /\ r_lat r' = u_lat u /\ r_lon r' = u_lon u.
+Proof.
+  intros is_rel t us u rest j r Hus Ha. subst us. unfold applied_ref. rewrite fold_left_app. cbn [fold_left].
+  rewrite Ha. cbn. repeat split; reflexivity.
+Qed.
+
+Lemma applied_ref_skip : forall is_rel t us u j r,
+  applicable t j u = false -> applied_ref is_rel t (us ++ [u]) j r = applied_ref is_rel t us j r.
+Proof.
+  intros. unfold applied_ref. rewrite fold_left_app. cbn [fold_left]. rewrite H. reflexivity.
+Qed.
+
+(* ------------------------------------------------------------------------- *)
+(* 7. the link from C12's order to time travel: on an update list ordered by (index, time,
+      version), ApplyUpdatesUpTo(t) leaves at index j the applicable update that is greatest for
+      (timestamp, version) — i.e. the newest version committed up to t *)
+
+Lemma strongly_sorted_snoc : forall (l : list update) u,
+  StronglySorted itv_le (l ++ [u]) -> StronglySorted itv_le l /\ forall x, In x l -> itv_le x u.
+Proof.
+  induction l as [|a r IH]; intros u H.
+  - split; [constructor|intros x []].
+  - cbn [app] in H. inversion H as [|? ? Hs Hall]; subst.
+    destruct (IH u Hs) as [H1 H2]. rewrite Forall_forall in Hall. split.
+    + constructor; [exact H1|]. rewrite Forall_forall. intros x Hx. apply Hall. apply in_or_app. left. exact Hx.
+    + intros x [<-|Hx]; [apply Hall; apply in_or_app; right; left; reflexivity|apply H2; exact Hx].
+Qed.
+
+Lemma applied_sorted_max : forall is_rel t j us,
+  StronglySorted itv_le us -> key_functional us ->
+  forall r u, In u us -> applicable t j u = true ->
+  (forall u', In u' us -> applicable t j u' = true -> itv_le u' u) ->
+  let r' := applied_ref is_rel t us j r in
+  r_version r' = u_version u /\ r_changeset r' = u_changeset u /\ r_lat r' = u_lat u /\ r_lon r' = u_lon u.
+Proof.
+  intros is_rel t j us. induction us as [|u0 rest IH] using rev_ind; intros Hs Hk r u Hin Ha Hmax.
+  - destruct Hin.
+  - destruct (strongly_sorted_snoc _ _ Hs) as [Hs' Hle].
+    destruct (applicable t j u0) eqn:E0.
+    + (* the last element is applicable: it is the maximum, hence it is u *)
+      assert (u0 = u) as ->.
+      { apply in_app_or in Hin. destruct Hin as [Hin|[<-|[]]]; [|reflexivity].
+        apply Hk; [apply in_or_app; right; left; reflexivity|apply in_or_app; left; exact Hin|].
+        apply itv_le_antisym_key; [|apply Hle; exact Hin].
+        apply Hmax; [apply in_or_app; right; left; reflexivity|exact E0]. }
+      eapply applied_ref_last; [reflexivity|exact E0].
+    + cbv zeta. rewrite applied_ref_skip by exact E0.
+      apply in_app_or in Hin. destruct Hin as [Hin|[<-|[]]]; [|congruence].
+      apply IH; try assumption.
+      * intros a b Ha' Hb'. apply Hk; apply in_or_app; left; assumption.
+      * intros u' Hu' Hau'. apply Hmax; [apply in_or_app; left; exact Hu'|exact Hau'].
+Qed.
+
+(* and when no update of index j is applicable the reference is unchanged *)
+Lemma applied_none : forall is_rel t j us r,
+  (forall u, In u us -> applicable t j u = false) -> applied_ref is_rel t us j r = r.
+Proof.
+  intros is_rel t j us. induction us as [|u rest IH]; intros r H; [reflexivity|].
+  unfold applied_ref. cbn [fold_left]. rewrite (H u (or_introl eq_refl)).
+  apply IH. intros x Hx. apply H. right. exact Hx.
+Qed.
